@@ -800,9 +800,21 @@ def load_global_rewrites():
     return lits, regs
 
 
+def _fold_canonical(m):
+    """D26: the closure's parameters are bound variables; they are renamed to `acc` / `x` (the names the
+    loop invariants in the contract files use) unless the closure body mentions those names itself."""
+    recv, init, a, x, e = m.group(1), m.group(2), m.group(3), m.group(4), m.group(5)
+    if (a, x) != ('acc', 'x'):
+        ids = set(t[0] for t in alpha.toks(e) if t[3] == 'id')
+        if a != x and not ({'acc', 'x'} - {a, x}) & ids:
+            e = inline.rename_ids(e, {a: 'acc', x: 'x'})
+            a, x = 'acc', 'x'
+    return '{ let mut %s = %s; for %s in %s.iter() { %s = %s; } %s }' % (a, init, x, recv, a, e, a)
+
+
 def apply_regex_rewrites(text, regs, out):
     for (rx, to, rule) in regs:
-        text, n = rx.subn(to, text)
+        text, n = rx.subn(_fold_canonical if rule.startswith('D26 ') else to, text)
         out.count(rule, n)
     return text
 
@@ -878,6 +890,11 @@ def implied_tags(mod, impl_ctx, name, cur):
         if mod in ('hmat', 'slit') and 'C01' in (cur | add):
             add.add('C12')      # "the table checksum stays valid throughout" is part of C12
     elif mod == 'aml':
+        if is_ser and impl_ctx in ('Aml for Zero', 'Aml for One', 'Aml for Byte', 'Aml for Word', 'Aml for DWord', 'Aml for QWord', 'Aml for Usize',
+                                   'Aml for u8', 'Aml for u16', 'Aml for u32', 'Aml for u64', 'Aml for usize'):
+            # the integer encoder also writes every BufferSize (C10 templates, C16 UUID buffers), the EISA
+            # id (C16) and the elements / sizes the alternative construction paths compare (C15)
+            add |= {'C10', 'C15', 'C16'}
         if impl_ctx.startswith('AmlSink for '):
             add |= {'C06', 'C08', 'C14', 'C15'}
         elif is_ser:
@@ -917,6 +934,7 @@ class Splicer:
         self.fn_index = []     # dict(module,key,covered,trusted,tags,line)
         self.modules = modules
         self.uncovered = []
+        self.removed = []     # functions under contract at the baseline that no longer exist
         self.degrade = {}
         self.baseline = {}
         self.baseline_out = None
@@ -993,7 +1011,7 @@ class Splicer:
             f.write('\n'.join(out.lines) + '\n')
         with open(os.path.join(self.outdir, 'map.json'), 'w') as f:
             json.dump(dict(regions=out.regions, rewrites=out.counts, fns=self.fn_index,
-                           uncovered=self.uncovered, packed=self.packed, enums=self.enums, all_enums=self.all_enums), f, indent=0)
+                           uncovered=self.uncovered, removed=self.removed, packed=self.packed, enums=self.enums, all_enums=self.all_enums), f, indent=0)
 
     # ---------------------------------------------------------------------------------
     def emit_module(self, mod):
@@ -1064,6 +1082,13 @@ class Splicer:
         self.emit_items(mod, ms, rest, None)
         for k, fs in ms.fns.items():
             if not fs.used:
+                # a function that existed when the baseline was recorded and is gone now was removed by the
+                # change under test (e.g. a helper inlined into its only caller): its obligations go with
+                # it, its former callers must now prove their own contracts without it.  A contract that
+                # never matched anything (not in the baseline either) is a lost anchor.
+                if any(bk.startswith('%s::%s#' % (mod, k)) for bk in self.baseline):
+                    self.removed.append('%s::%s' % (mod, k))
+                    continue
                 raise SpliceError('lost anchor: contract for `%s` in %s.vspec matches no function in /repo/src/%s.rs' % (k, mod, mod))
         for k in ms.impl_items:
             if k not in self._impls_seen.get(mod, set()):
